@@ -182,6 +182,12 @@ class KvRun(object):
     def draw_data_lines(self, key, tag):
         ch, sim = self.ch, self.sim
         lines = []
+        if ch.chance(1, 60, 'bigblock'):
+            # a long value (a consensus listing, a config text): several hundred plain lines, block boundaries of any
+            # internal batching included
+            n = ch.pick([255, 256, 257, 300, 512, 513, 700], 'bigblockn')
+            sim.probe('data-block-with-hundreds-of-lines')
+            return ['%s.%d r relay%04d 10.0.%d.%d 9001 0' % (tag, i, i, i // 250, i % 250) for i in range(n)]
         for q in range(ch.weighted([1, 3, 3, 2, 1], 'ndl')):
             k = ch.weighted([5, 2, 2, 2, 2], 'dlkind')
             t = '%s.%d' % (tag, q)
@@ -361,6 +367,10 @@ class KvRun(object):
             v = ch.pick([True, False], 'svbool')
         else:
             v = 'x' * (13 + ch.draw(190, 'svlong')) + ch.pick(['', ' y', '\\', '"'], 'svlt')
+            if ch.chance(1, 6, 'svmanyesc'):
+                # a value with several hundred characters that need escaping (a list of Windows paths, say)
+                v = ch.pick(['\\', '"', '\t', 'C:\\d '], 'svescunit') * ch.pick([255, 256, 257, 300, 600], 'svescn')
+                sim.probe('value-with-hundreds-of-escapes')
         if ch.chance(1, 8, 'svshape'):
             # the value is str()-ed by set_conf whatever it is: objects whose text needs quoting as much as a str does
             sv = str(v)
